@@ -83,6 +83,78 @@ def evaluate(camp):
     return bad
 
 
+def direct_checks():
+    """observations on a real Solver1D that the integer-valued scripted world cannot carry (every run): metric values that are not
+    finite, batch counts below zero, the deprecated monitor= way of passing a callback"""
+    import math
+    import warnings
+    import torch
+    from neurodiffeq import diff
+    from neurodiffeq.solvers import Solver1D
+    from neurodiffeq.conditions import IVP
+    from neurodiffeq.networks import FCNN
+    from neurodiffeq.generators import Generator1D
+    bad = []
+
+    def make(**kw):
+        torch.manual_seed(1)
+        return Solver1D(lambda u, t: [diff(u, t) + u], [IVP(0., 1.)], t_min=0., t_max=1., nets=[FCNN(1, 1, hidden_units=(3,))],
+                        train_generator=Generator1D(4, 0., 1.), valid_generator=Generator1D(4, 0., 1.), **kw)
+    with warnings.catch_warnings():
+        warnings.simplefilter('ignore')
+        # (a) "a custom metric's entry being the mean over that epoch's batches of the metric function's value": also when a value is nan / inf
+        for special, nm in ((float('nan'), 'nan'), (float('inf'), 'inf'), (-float('inf'), '-inf')):
+            calls = []
+
+            def metric(u, t, special=special, calls=calls):
+                calls.append(1)
+                k = len(calls) % 6            # 3 training + 3 validation batches per epoch
+                return torch.tensor(special) if k == 2 else torch.tensor(float(k))
+            s = make(n_batches_train=3, n_batches_valid=3, metrics={'m': metric})
+            s.fit(2, tqdm_file=None)
+            vals = s.metrics_history['train__m']
+            want = sum([1.0, special, 3.0]) / 3
+            same = lambda a, b: (math.isnan(a) and math.isnan(b)) or a == b
+            if len(vals) != 2 or not all(same(float(v), want) for v in vals) or len(s.metrics_history['valid__m']) != 2 \
+                    or any(float(v) != (4.0 + 5.0 + 0.0) / 3 for v in s.metrics_history['valid__m']):
+                bad.append(dict(case=f'metric function returns {nm} on one of three batches', violated='the entry is not the mean over the batches of the '
+                                'values the function returned', train_series=[float(v) for v in vals], want=want,
+                                valid_series=[float(v) for v in s.metrics_history['valid__m']]))
+        # (b) a phase with a batch count below one does not run: no entry in any of its series
+        for how in ('constructor', 'attribute'):
+            s = make(n_batches_train=2, n_batches_valid=-1 if how == 'constructor' else 2, metrics={'m': lambda u, t: torch.tensor(1.0)})
+            if how == 'attribute':
+                s.fit(1, tqdm_file=None)
+                s.n_batches['valid'] = -2
+            before = {k: len(v) for k, v in s.metrics_history.items()}
+            s.fit(3, tqdm_file=None)
+            grown = {k: len(v) - before[k] for k, v in s.metrics_history.items()}
+            if grown.get('valid_loss') or grown.get('valid__m') or grown.get('train_loss') != 3 or grown.get('train__m') != 3 \
+                    or s.global_epoch != len(s.metrics_history['train_loss']):
+                bad.append(dict(case=f'validation batch count below zero (set through the {how})', violated='a phase that ran no batch wrote history '
+                                'entries (or the training series are off)', new_entries=grown, global_epoch=s.global_epoch))
+        # (c) callbacks run once per epoch in the given order - also when a monitor is passed the deprecated way
+        log = []
+
+        class Mon:
+            def to_callback(self):
+                return lambda solver: log.append(('monitor', solver.local_epoch))
+        s = make(n_batches_train=1, n_batches_valid=1)
+        cbs = (lambda solver: log.append(('a', solver.local_epoch)), lambda solver: log.append(('b', solver.local_epoch)))
+        for form in (list(cbs), cbs, iter(cbs)):
+            del log[:]
+            try:
+                s.fit(3, monitor=Mon(), callbacks=form, tqdm_file=None)
+            except Exception as e:
+                bad.append(dict(case='fit(max_epochs=3, monitor=..., callbacks=[a, b])', error=f'{type(e).__name__}: {e}', callbacks_given_as=type(form).__name__))
+                continue
+            want = [(n, ep) for ep in (1, 2, 3) for n in ('monitor', 'a', 'b')]
+            if log != want:
+                bad.append(dict(case='fit(max_epochs=3, monitor=..., callbacks=[a, b])', violated='callbacks did not run exactly once per epoch in the given order',
+                                callbacks_given_as=type(form).__name__, got=log[:12], want=want))
+    return bad
+
+
 def check(tier, seed):
     rep = Report(PID, tier, seed)
     ok, hits = kernel_phase(rep, 'NdeVerif.Proofs.C15', 'NdeVerif.C15', THEOREMS)
@@ -94,7 +166,7 @@ def check(tier, seed):
     camp = Campaign(tier, seed + 1).run()
     if camp.mismatches:
         broken.append(dict(kind='correspondence', stream='real solver vs NdeVerif.Solver', count=len(camp.mismatches), first=camp.mismatches[:2]))
-    bad = evaluate(camp)
+    bad = evaluate(camp) + direct_checks()
     rep.coverage.update(camp.coverage())
     rep.samples = [dict(script=l, solver=kw) for l, kw in camp.scripts[:3]]
     rep.assumptions = ['n_batches_train >= 1 in every epoch (the property\'s quantifier); with n_batches_train = 0 the real code records nothing for that epoch',
